@@ -186,6 +186,8 @@ class SymArray(_np.ndarray):
         dtype = _np.dtype(dtype)
         if not _is_float_dt(dtype):
             return concretize(self.view(_np.ndarray), dtype)
+        if k.get("copy", True) is False and dtype == self._nd:
+            return self             # NumPy hands back the very same array: aliasing matters to the code under test
         o = self.view(_np.ndarray).copy().view(SymArray)
         o._nd = dtype
         return o
@@ -803,6 +805,8 @@ class NPProxy:
     def array(self, x, dtype=None, copy=True, **kw):
         if isinstance(dtype, sc.FakeDType):
             dtype = dtype.nd
+        if isinstance(x, SymArray) and copy in (None, False) and (dtype is None or _np.dtype(dtype) == x._nd):
+            return x                # no copy needed: NumPy returns the operand itself
         if _contains_sym(x):
             return _to_symarray(x, dtype)
         if isinstance(x, _DataDummy):
